@@ -150,6 +150,7 @@ type FnVC struct {
 }
 
 type loopState struct {
+	cases   []*Term // loop-level case split (conditions on the head state)
 	pre     *State
 	head    *State
 	variant []*Term
@@ -611,6 +612,21 @@ func (v *FnVC) oblige(kind, name string, guard, goal *Term, pos, text string) *O
 		NAssume: len(v.assumes), NDef: len(v.defs), NDecl: len(v.decls), Pos: pos, Text: text, vc: v, Block: v.curBlock}
 	if v.curBlock != nil && guard == v.curGuard {
 		o.Split = v.blockCases[v.curBlock]
+	}
+	if v.curBlock != nil && v.cfg != nil && kind != "split" {
+		// innermost enclosing loop with a declared case split takes precedence
+		var best *Loop
+		for _, l := range v.cfg.Loops {
+			if ls := v.loopInfo[l]; ls != nil && len(ls.cases) > 1 && l.Body[v.curBlock] {
+				if best == nil || len(l.Body) < len(best.Body) {
+					best = l
+				}
+			}
+		}
+		if best != nil {
+			o.Split = v.loopInfo[best].cases
+			o.SplitFirst = true
+		}
 	}
 	if goal.IsTrue() || guard.IsFalse() {
 		o.Result = "unsat"
